@@ -1283,3 +1283,13 @@ m('geo-time-interval', ['C01', 'C02', 'C04'],
   (M, "        self.time_interval = self.vertices[0].t, self.vertices[2].t",
    "        self.time_interval = self.vertices[0].t, self.vertices[1].t"),
   rule='R-geometry')
+t('twin-hier-commute', ['C20'],
+  (HI, "            estims.append((estim_loc[0] + 0.5 * estim_loc[2],\n                           estim_loc[1] + 0.5 * estim_loc[2]))",
+   "            estims.append((0.5 * estim_loc[2] + estim_loc[0],\n                           estim_loc[2] / 2 + estim_loc[1]))"))
+t('twin-hh2-diff-sign', ['C20'],
+  (HH, "        diff = Phi_fine - Phi_prolong", "        diff = -(Phi_prolong - Phi_fine)"))
+t('twin-norm-commute', ['C14', 'C09'],
+  (N, "        return 2 * h**2 * np.dot((fx - fxy)**2 / xy_sqr, self.semi_1_2_weights)",
+   "        return h * h * 2 * np.dot((fxy - fx)**2 / xy_sqr, self.semi_1_2_weights)"))
+t('twin-outer-commute', ['C09'],
+  (EE, "        approx = h_t * np.dot(val, self.gauss.weights)", "        approx = np.dot(self.gauss.weights, val) * h_t"))
